@@ -188,7 +188,7 @@ def run(ctx):
     ctx.rule(R12, 'LIKE is evaluated through a regex: in the translation (like_to_regex) only `%` and `_` become regex syntax; every other '
                   'character of the pattern goes through regex::escape, never into the regex as it is (a raw `String::push` of a pattern '
                   'character makes `.`, `(`, `+`, `[` ... wildcards or a syntax error)')
-    lk = [b_ for n, b_ in prog.bodies.items() if re.search(r'ArrayImpl>::like::like_to_regex$', n)]
+    lk = [b_ for n, b_ in prog.bodies.items() if re.search(r'^array::.*::like_to_regex$', n)]      # nested in ArrayImpl::like, or at module level
     if ctx.anchor(R12, 'ArrayImpl::like::like_to_regex', lk):
         lb = lk[0]
         ctx.functions_analysed.add(lb.name)
